@@ -1076,6 +1076,15 @@ fn sec_delay_fx_handles(s: &mut Session, cx: &Ctx, rng: &mut Rng, n: usize) {
 			before.push(a);
 			after.push(b);
 		}
+		// the closed form g^k FX^k(burst) adds the echoes up: valid when the loop is linear (filters, EQ, volume,
+		// panning: their tails may overlap) or when the echoes of the short burst do not overlap (a memoryless
+		// distortion), NOT for a distortion next to a filter / EQ, whose tail carries one echo into the next
+		// period where the clipper sees their sum
+		let nonlinear = before.iter().chain(after.iter()).any(|d| matches!(d, Dist { .. }));
+		let with_memory = before.iter().chain(after.iter()).any(|d| matches!(d, Filter { .. } | Eq { .. }));
+		if nonlinear && with_memory {
+			continue;
+		}
 		let tween_dur = match rng.below(3) {
 			0 => Duration::ZERO,
 			1 => Tween::default().duration,
